@@ -7,6 +7,8 @@ Python objects whose only relevant attribute is identity are numeric ids. A step
 model is one atomic section of the implementation (code between two checkpoints); the
 only operation that spans a checkpoint is a lookup through an *asynchronous* factory,
 which is split into `get` (begin, leaves a pending generation) and `genFinish`.
+A block can also be left by cancellation (`BlockEnd.raised .cancelled`): the teardown then
+runs inside a cancelled scope (`effStack`).
 -/
 import AsphaltModel.Basic
 
@@ -438,6 +440,30 @@ decreasing_by
     stackSize_reverse, Cb.size_mk]
   omega
 
+/-! ### cancellation of the block -/
+
+def BlockEnd.isCancel : BlockEnd → Bool
+  | .raised .cancelled => true
+  | _ => false
+
+/-- What a callback amounts to when the teardown runs because the block was *cancelled*: the
+host task is inside a cancelled scope, so the awaitable returned by an asynchronous callback
+is cancelled at its first checkpoint, which (for the callbacks of this model: "suspend once
+before doing anything") is before its body, its registrations and its own raise: it is
+invoked, does nothing, and ends with the cancellation exception. Synchronous callbacks run
+as usual, and so do the (synchronous) callbacks they register. -/
+def Cb.underCancel : Cb → Cb
+  | .mk id p a body regs r =>
+    if a then .mk id p a [] [] (some .cancelled)
+    else .mk id p a body (underCancelList regs) r
+where underCancelList : List Cb → List Cb
+  | [] => []
+  | c :: cs => c.underCancel :: underCancelList cs
+
+/-- The teardown stack as it will behave, given how the block ended. -/
+def effStack (be : BlockEnd) (st : List Cb) : List Cb :=
+  if be.isCancel then Cb.underCancel.underCancelList st else st
+
 /-! ### @inject -/
 
 /-- An injected parameter after annotation resolution: `param: T = resource(name)`
@@ -564,7 +590,7 @@ def step (w : World) : Op → World × List Out
       if x.state ≠ .opened then (w, [.badOp])
       else
         let x1 := { x with state := .closing, tds := [] }
-        let (x2, tr, excs) := runTeardown c be x.tds x1
+        let (x2, tr, excs) := runTeardown c be (effStack be x.tds) x1
         let x3 := { x2 with state := .closed }
         let w1 := (w.setCtx c x3).setCur t (x.token.getD Option.none)
         let w2 := removeChild w1 x.parent c
